@@ -18,6 +18,7 @@ def junkNames : List String :=
 
 structure Rel (σ : RSt) (π : PSt) : Prop where
   d0 : σ.depth = 0
+  params : σ.params = []
   pd0 : π.depth = 0
   stack : lookupP ("stack", []) π.globals = some (.list σ.stack.reverse)
   ctxVals : π.ctxVals = σ.ctxVals
@@ -50,7 +51,7 @@ theorem Rel.setJunk {σ : RSt} {π : PSt} (h : Rel σ π) (name : String) (v : V
   have hne : (name, ([] : List Nat)) ≠ ("stack", []) := by
     intro he; have : name = "stack" := by injection he
     subst this; revert hj; decide
-  refine ⟨h.d0, by simp [h.pd0], ?_, by simp [h.ctxVals], by simp [h.inputs], by simp [h.register], by simp [h.ghost],
+  refine ⟨h.d0, h.params, by simp [h.pd0], ?_, by simp [h.ctxVals], by simp [h.inputs], by simp [h.register], by simp [h.ghost],
     by simp [h.out], by simp [h.printed], by simp [h.retain], by simp [h.useTop], ?_, ?_⟩
   · rw [setVar_d0 _ _ _ h.pd0]; simp only
     rw [lookupP_setP_ne _ _ _ _ (Ne.symm hne)]; exact h.stack
@@ -66,7 +67,7 @@ theorem Rel.setJunk {σ : RSt} {π : PSt} (h : Rel σ π) (name : String) (v : V
 /-- the Python state after `stack` is rebound -/
 theorem Rel.setStack {σ : RSt} {π : PSt} (h : Rel σ π) (st : List Val) :
     Rel { σ with stack := st } (π.setVar ("stack", []) (.list st.reverse)) := by
-  refine ⟨h.d0, by simp [h.pd0], ?_, by simp [h.ctxVals], by simp [h.inputs], by simp [h.register], by simp [h.ghost],
+  refine ⟨h.d0, h.params, by simp [h.pd0], ?_, by simp [h.ctxVals], by simp [h.inputs], by simp [h.register], by simp [h.ghost],
     by simp [h.out], by simp [h.printed], by simp [h.retain], by simp [h.useTop], ?_, ?_⟩
   · rw [setVar_d0 _ _ _ h.pd0]; simp only; rw [lookupP_setP_eq]
   · intro x hx hl
@@ -88,7 +89,7 @@ open Vy PyAst
 
 theorem Rel.setInputs {σ : RSt} {π : PSt} (h : Rel σ π) (ins : List (List Val × Nat)) :
     Rel { σ with inputs := ins } { π with inputs := ins } :=
-  ⟨h.d0, h.pd0, h.stack, h.ctxVals, rfl, h.register, h.ghost, h.out, h.printed, h.retain, h.useTop, h.vars, h.clean⟩
+  ⟨h.d0, h.params, h.pd0, h.stack, h.ctxVals, rfl, h.register, h.ghost, h.out, h.printed, h.retain, h.useTop, h.vars, h.clean⟩
 
 
 @[simp] theorem specialOf_pop : specialOf "pop" = some .pop := by decide
@@ -318,7 +319,7 @@ theorem isBoilerplate_sound (b : List PyStmt) (k : Nat) (f : String) (h : isBoil
 
 theorem Rel.setCtxVals {σ : RSt} {π : PSt} (h : Rel σ π) (cv : List Val) :
     Rel { σ with ctxVals := cv } { π with ctxVals := cv } :=
-  ⟨h.d0, h.pd0, h.stack, rfl, h.inputs, h.register, h.ghost, h.out, h.printed, h.retain, h.useTop, h.vars, h.clean⟩
+  ⟨h.d0, h.params, h.pd0, h.stack, rfl, h.inputs, h.register, h.ghost, h.out, h.printed, h.retain, h.useTop, h.vars, h.clean⟩
 
 theorem exec_ctxAppend (cfg : Cfg) (n : Nat) (e : PyExpr) (v : Val) (π : PSt) (he : evalE cfg n e π = .ok (v, π)) :
     execPS cfg n (ctxCall "context_values" "append" [e]) π = .ok (.normal, { π with ctxVals := v :: π.ctxVals }) := by
@@ -436,7 +437,7 @@ theorem loopName_ne_nil (k : Nat) : loopName k ≠ [] := by simp [loopName]
 /-- the Python variable of an unnamed loop is outside the relation -/
 theorem Rel.setLoopVar {σ : RSt} {π : PSt} (h : Rel σ π) (nm : Str) (hn : isLoopName nm = true) (hne : nm ≠ []) (v : Val) :
     Rel σ (π.setVar ("VAR_", nm) v) := by
-  refine ⟨h.d0, by simp [h.pd0], ?_, by simp [h.ctxVals], by simp [h.inputs], by simp [h.register], by simp [h.ghost],
+  refine ⟨h.d0, h.params, by simp [h.pd0], ?_, by simp [h.ctxVals], by simp [h.inputs], by simp [h.register], by simp [h.ghost],
     by simp [h.out], by simp [h.printed], by simp [h.retain], by simp [h.useTop], ?_, ?_⟩
   · rw [setVar_d0 _ _ _ h.pd0]; simp only
     rw [lookupP_setP_ne]; exact h.stack
@@ -453,7 +454,7 @@ theorem Rel.setLoopVar {σ : RSt} {π : PSt} (h : Rel σ π) (nm : Str) (hn : is
 /-- a program variable -/
 theorem Rel.setProgVar {σ : RSt} {π : PSt} (h : Rel σ π) (nm : Str) (hne : nm ≠ []) (v : Val) :
     Rel { σ with globals := setKV nm v σ.globals } (π.setVar ("VAR_", nm) v) := by
-  refine ⟨h.d0, by simp [h.pd0], ?_, by simp [h.ctxVals], by simp [h.inputs], by simp [h.register], by simp [h.ghost],
+  refine ⟨h.d0, h.params, by simp [h.pd0], ?_, by simp [h.ctxVals], by simp [h.inputs], by simp [h.register], by simp [h.ghost],
     by simp [h.out], by simp [h.printed], by simp [h.retain], by simp [h.useTop], ?_, ?_⟩
   · rw [setVar_d0 _ _ _ h.pd0]; simp only
     rw [lookupP_setP_ne]; exact h.stack
@@ -470,7 +471,7 @@ theorem Rel.setProgVar {σ : RSt} {π : PSt} (h : Rel σ π) (nm : Str) (hne : n
     intro he; injection he with h1 h2; exact hne h2.symm
 
 theorem Rel.setGhost {σ : RSt} {π : PSt} (h : Rel σ π) (v : Val) : Rel { σ with ghost := v } { π with ghost := v } :=
-  ⟨h.d0, h.pd0, h.stack, h.ctxVals, h.inputs, h.register, rfl, h.out, h.printed, h.retain, h.useTop, h.vars, h.clean⟩
+  ⟨h.d0, h.params, h.pd0, h.stack, h.ctxVals, h.inputs, h.register, rfl, h.out, h.printed, h.retain, h.useTop, h.vars, h.clean⟩
 
 /-- the loop variable of a `for`: what the reference loop binds and the Python target -/
 inductive ForVar : Option Str → PyExpr → Prop
